@@ -48,6 +48,13 @@ def lex_impl(chunks, with_code=True):
         cnt = l.get_token_count()
     except Exception as e:  # noqa
         cnt = 'ERR ' + lib.exc_name(e)
+    # after the observation: what `p8tool listlua --pure-lua` does to the token objects of a loaded cart (PureLuaWriter
+    # rewrites `?` and `//` tokens in place).  Token objects belong to the load that made them: a later lex in this
+    # process must not see them (a lexer that hands out remembered token objects would)
+    try:
+        list(lua.PureLuaWriter(tokens=l._lexer.tokens, root=None, args=None).to_lines())
+    except Exception:  # noqa
+        pass
     return {'toks': toks, 'count': cnt}
 
 
